@@ -587,3 +587,11 @@ def r7(ctx):
         yield VIOL("C12-R7", "content-type/option-split", "an option is not cut at its first '=' into name and value (%s): `charset=utf-8=x` would select utf-8" % bad[0][2], where=bad[0][0].span_of_block(bad[0][1]))
     else:
         yield PASS("C12-R7", "content-type/option-split", "options cut with splitn(2, '=') / split_once", [])
+
+
+@M.rule("C12-R8", "form folding is decided by the caller's own options (shared hand-off with C09-R7)")
+def r8(ctx):
+    import c09
+
+    for r in handoff_results(ctx, "C12-R8", c09.OPT_HANDOFF, VIOL, PASS, site, "whether a form body is folded into the query is decided by options the caller did not give"):
+        yield r
